@@ -30,6 +30,8 @@ Definition same_out (a b : outcome (sstate * option (list N))) : Prop :=
   | _, _ => False
   end.
 
+Local Opaque too_big.
+
 Lemma step_ids : forall cfg d ids ids' t1 t2 e b ans,
   (forall m, decode b = Ok m -> msgtype m = Some 3 -> serverid m = None \/ serverid m = Some (e_serverip e)) ->
   same_out (server_step cfg (d, ids) t1 t2 e b ans) (server_step cfg (d, ids') t1 t2 e b ans).
@@ -47,6 +49,7 @@ Proof.
   destruct (handle (step_in_of ids' e (walk_of cfg (request_of e m)) t2 (Some (ip, secs))) (leases_of d) m)
     as [[r|er] ldb]; [|reflexivity].
   destruct (to_array (d_chaddr r)) as [[mac|]|x|kk]; [|simpl; auto|reflexivity|exact I].
+  destruct (too_big r); [simpl; auto|].
   destruct (udp4_build (frame_args e m r mac)) as [f0|x|kk]; cbn [obind]; [simpl; auto|reflexivity|exact I].
 Qed.
 
